@@ -28,6 +28,14 @@ CHECKS = {
  'C17': dict(engine='L+P', technique='invariant evaluation over every summary node/edge after the real analyses + explicit-state search of the built-summary subset lattice (all BuildSummary orders replayed on fresh states)',
              text='I(G) (out<->in with tuple index, call node<->Callsites, closure node<->ReferringMakeClosures, global read/write location sets) is evaluated after taint and backtrace, eager and on-demand, on every program; for programs with few user functions every subset of built summaries is reached through every order: I(G) holds in every state, the canonical graph depends only on the subset, and the top equals the eager graph.',
              note='public accessors only; lattice limited to <=4 (quick) / <=5 (thorough) user functions', ref='§6 C17'),
+
+ 'C08': dict(engine='L+P', technique='explicit-state reachability over the SSA value graph of every summarised function (reference model) vs the edges of the real summary',
+             text='For every function of every generated program and every function of the listed std packages, a BFS over the SSA operand graph (only the value-computing instruction kinds the property lists) from each parameter / free variable / call result must be matched by a summary edge to every reachable return operand, call argument, closure binding and branch condition.',
+             note='memory operations are not reference edges (one-sided); comma-ok flags and cap() excluded; closure-under-control-flow clause not implemented', ref='§6 C08'),
+
+ 'C10': dict(engine='P', technique='exhaustive enumeration of all 0/1 specification matrices (arity<=3, results<=2) x call forms, oracle = the matrix',
+             text='Every Args/Rets matrix for every signature of arity <=3 over {string,*string} with <=2 results, as function, method and interface-method contract (plus a contradicting function contract), with a function body implementing the complement flow: every listed flow must be reported and nothing outside the closure of the matrix (eager and on-demand).',
+             note='over-approximation inside the transitive closure of the matrix is tolerated', ref='§6 C10'),
 }
 NA = []
 def main():
